@@ -189,7 +189,7 @@ Lemma source_eq n p x : PInv p -> eq_arg_ok x ->
   = (match eq_model p x with Ok b => Ok (VBool b) | Raise e => Raise e end, p).
 Proof.
   intros I Hx. pose proof I as [G HS]. rewrite sem_S, run_body_fin. unfold gen_prog. rewrite gen_eq_eq.
-  destruct x as [| | | | | | | |a|q| | | | | | | | |j|]; try contradiction.
+  destruct x as [| | | | | | | |a|q| | | | | | | | |j| | | | |]; try contradiction.
   - destruct a as [l|m| |]; try contradiction.
     2: (* self *) reflexivity.
     + (* a plain mapping *)
